@@ -608,7 +608,9 @@ def minimize_lbfgsb(
                 G,
                 maxcor,
                 mats,
-                is_force_update=False,
+                # the sequence of gradients might have been rewritten by update_fun_def:
+                # the matrices must then be rebuilt even if the new pair is rejected
+                is_force_update=update_fun_def is not None,
                 eps=eps_SY,
                 is_check_factorization=is_check_factorization,
             )
